@@ -222,6 +222,7 @@ def check(db, rep):
     else:
         r4.violation('SaveOperationResult', '%s:%d' % (sv.file, sv.line), 'a stored result does not clear the broken/outdated flags or does not update every child operation')
     _r5(db, rep)
+    _r6(db, rep)
 
 
 def _r5(db, rep):
@@ -300,3 +301,84 @@ def _r5(db, rep):
         r5.ok('ossGraphFacet::Erase:parallel', 'the same position is erased from graph and items', '%s:%d' % (er.file, er.line))
     else:
         r5.violation('ossGraphFacet::Erase:parallel', '%s:%d' % (er.file, er.line), 'graph and items are parallel vectors: erasing different positions (or only one of them) shifts every later pictogram onto another node\'s edges')
+
+
+def _r6(db, rep):
+    """r6: (a) only the source facet dereferences the raw source pointer of a handle: everybody else obtains data through DataFor / OpenSrc, which
+    re-open a closed document (reading the raw pointer treats a closed result as 'no previous result' and drops the user's additions);
+    (b) ossGraphFacet::LoadParent evaluated on every graph of four nodes: it refuses exactly self-connections, duplicates and connections whose
+    reverse already exists - in particular it never refuses a new connection that closes no loop."""
+    import itertools
+    from engine.evalmini import Interp, Obj, OutOfFragment, NOT_HANDLED
+    r6 = rep.rule('r6', 'HANDLE-ACCESS / LOAD-PARENT: the raw source pointer of a handle is read only inside ossSourceFacet; LoadParent refuses only self, duplicate and reversed connections', 2)
+    SF = O + 'ossSourceFacet'
+    offenders = []
+    n_reads = 0
+    for f in db.functions:
+        if not f.has_cfg() or not f.file or '/test/' in f.file or not f.file.startswith('ccl/core/src/oss/'):
+            continue
+        for x in f.walk():
+            if x['k'] == 'MemberExpr' and x.get('member') == 'src' and (x.get('fcls') or '').endswith('oss::Handle') or (x['k'] == 'MemberExpr' and x.get('member') == 'src' and 'Handle' in (x.get('qn') or '')):
+                n_reads += 1
+                if not (f.cls or '').endswith('ossSourceFacet') and not f.name.startswith(SF):
+                    offenders.append((f, x))
+    if offenders:
+        f, x = offenders[0]
+        r6.violation('Handle::src', f.loc(x), '%s reads the raw source pointer of a handle (`%s`): a result document that was closed is seen as absent instead of being re-opened through DataFor/OpenSrc' % (f.name.split('::')[-1], x.get('txt', '')[:40]))
+    elif n_reads == 0:
+        r6.broken('no access to Handle::src found (anchor vanished)')
+    else:
+        r6.ok('Handle::src', '%d reads, all inside ossSourceFacet' % n_reads)
+    lp = db.fn(O + 'ossGraphFacet::LoadParent', required=False)
+    if lp is None:
+        r6.broken('anchor vanished: ossGraphFacet::LoadParent')
+        return
+    bad, cases = None, 0
+
+    def closes_loop(g, child, parent):
+        seen, stack = set(), [parent]
+        while stack:
+            x = stack.pop()
+            if x == child:
+                return True
+            if x in seen:
+                continue
+            seen.add(x)
+            stack += g[x]
+        return False
+    try:
+        nodes = range(4)
+        # DAGs in which node i may only have parents among lower-numbered nodes, at most two parents each
+        options = [[()] + [(a,) for a in range(i)] + [(a, b) for a in range(i) for b in range(a + 1, i)] for i in nodes]
+        for parents in itertools.product(*options):
+            for child in nodes:
+                for parent in nodes:
+                    cases += 1
+                    g = [list(p) for p in parents]
+                    this = Obj(graph=[list(p) for p in parents], items=list(nodes))
+
+                    def on_call(it, fn, n, env):
+                        if (n.get('cs') or '').endswith('::Item2ID'):
+                            return it.eval(fn, fn.stmts[n['args'][0]], env)
+                        return NOT_HANDLED
+                    res = Interp(db, on_call=on_call, max_steps=50000).call(lp, [child, parent], this)
+                    must_refuse = child == parent or parent in g[child] or child in g[parent]
+                    may_refuse = must_refuse or closes_loop(g, child, parent)
+                    why = None
+                    if res and must_refuse:
+                        why = 'accepted'
+                    elif not res and not may_refuse:
+                        why = 'refused although it is new and closes no loop'
+                    elif res and this['graph'][child] != g[child] + [parent]:
+                        why = 'accepted but the parents of %d become %s' % (child, this['graph'][child])
+                    elif not res and this['graph'] != g:
+                        why = 'refused but the graph changed'
+                    if why and bad is None:
+                        bad = 'parents %s, connection %d -> parent %d: %s' % ({i: list(p) for i, p in enumerate(parents) if p}, child, parent, why)
+    except OutOfFragment as e:
+        r6.broken('LoadParent outside the evaluable fragment: %s' % e)
+        return
+    if bad:
+        r6.violation('LoadParent', '%s:%d' % (lp.file, lp.line), bad + ' (a loaded document then gives an operation one parent only)')
+    else:
+        r6.ok('LoadParent', 'refuses exactly self, duplicate and reversed connections on %d (graph, connection) cases' % cases, '%s:%d' % (lp.file, lp.line))
